@@ -117,6 +117,9 @@ pub struct SrcCfg {
     pub max_chunk: usize,
     /// size of the very first delivery (0 = tape decides)
     pub first_read: usize,
+    /// step budget: after this many read calls the source fails every call
+    /// and raises `over_budget` (0 = unlimited)
+    pub call_budget: usize,
 }
 
 pub struct SimSource {
@@ -128,6 +131,8 @@ pub struct SimSource {
     pub handed: usize,
     /// shared view of `handed`
     pub handed_shared: Arc<std::sync::atomic::AtomicUsize>,
+    /// raised when the read-call budget was exhausted
+    pub over_budget: Arc<AtomicBool>,
     pub calls: usize,
     pub fault_fired: bool,
     consecutive_intr: u32,
@@ -147,6 +152,7 @@ impl SimSource {
             cfg,
             handed: 0,
             handed_shared: Arc::new(std::sync::atomic::AtomicUsize::new(0)),
+            over_budget: Arc::new(AtomicBool::new(false)),
             calls: 0,
             fault_fired: false,
             consecutive_intr: 0,
@@ -167,6 +173,26 @@ impl SimSource {
     /// decide what this read call does; returns Ok(n) bytes to copy
     fn decide(&mut self, want: usize) -> io::Result<usize> {
         self.calls += 1;
+        if self.cfg.call_budget > 0 && self.calls > self.cfg.call_budget {
+            if !self.over_budget.swap(true, Ordering::SeqCst) {
+                // who keeps reading? (call path through dicom-rs, for the report)
+                let bt = std::backtrace::Backtrace::force_capture().to_string();
+                let mut path: Vec<String> = Vec::new();
+                for line in bt.lines() {
+                    if let Some(rest) = line.trim().strip_prefix("at /repo/") {
+                        let p = rest.rsplitn(2, ':').nth(1).unwrap_or(rest).to_string();
+                        if path.last() != Some(&p) {
+                            path.push(p);
+                        }
+                        if path.len() >= 8 {
+                            break;
+                        }
+                    }
+                }
+                self.env.with(|e| e.obs.note_with(|| format!("read-call budget exhausted; caller path: {}", path.join(" <- "))));
+            }
+            return Err(io::Error::new(ErrorKind::Other, "simulated source: read-call budget exhausted"));
+        }
         if want == 0 {
             return Ok(0);
         }
